@@ -47,6 +47,7 @@ type program struct {
 	NoDrain  bool       `json:"nodrain,omitempty"` // slow consumer that never reads again: no final drain (undelivered signals stay undelivered)
 	VolleyG  int        `json:"volley_g,omitempty"` // free-running family: after one Add at idle, K volleys of G simultaneous Adds
 	VolleyK  int        `json:"volley_k,omitempty"`
+	Reps     int        `json:"-"` // staged programs: multiplier of the number of seeded schedules
 	NoGates  bool       `json:"nogates,omitempty"` // long sequential chains: the limiter's decision points are recorded but do not park
 }
 
@@ -103,6 +104,8 @@ type result struct {
 	stuck    int
 	runStuck bool
 	deadlock string // classification of the final goroutine dump when something is stuck
+	cfgClass string // set when the constructor refused the (legal) configuration
+	clock    bool   // a step of the injected clock never returned
 }
 
 // ---- goroutine snapshots (helpers alive at close_ret, consumer settled, deadlock classification) ----
@@ -297,10 +300,18 @@ func runSchedule(b, hb *tv.Batch, prog program, seed int64) result {
 	}
 	rl, err := ratelimiting.NewCoalescing(opts)
 	if err != nil {
-		return result{trace: tr, htrace: htr, err: err}
+		// every configuration the harness uses is legal (0 < InitialDelay <= MaxDelay, cap unset or > 0): a refusal is judged
+		rec.ev("new_err", tv.M{"msg": err.Error()})
+		rec.end()
+		cfgClass := "initial-less-than-max"
+		if prog.I == prog.M {
+			cfgClass = "initial-equals-max"
+		}
+		return result{trace: tr, htrace: -1, schedule: []string{"NewCoalescing: " + err.Error()}, cfgClass: cfgClass}
 	}
 	rl.(ratelimiting.RateLimiterWithTicker).WithTicker(clk)
-	nowMs := func() int { return int(clk.Now().Sub(base) / time.Millisecond) }
+	nowT := 0 // ms; kept by the driver (reading the fake clock would block behind a step that is stuck)
+	var clockSteps []*sched.Task
 	ctx, cancel := context.WithCancel(context.Background())
 	ch := make(chan struct{})
 	stop := make(chan struct{})
@@ -356,7 +367,7 @@ func runSchedule(b, hb *tv.Batch, prog program, seed int64) result {
 	inflightAddClose := func() int {
 		n := 0
 		for _, c := range clients {
-			if c.cur != nil && !c.cur.Done() && c.curOp != "run2" {
+			if c.cur != nil && !c.cur.Done() && c.curOp != "run2" && c.curOp != "adv" {
 				n++
 			}
 		}
@@ -397,8 +408,13 @@ func runSchedule(b, hb *tv.Batch, prog program, seed int64) result {
 				})
 			case "adv":
 				c.next++
-				rec.ev("adv", tv.M{"now": nowMs() + o.N})
-				clk.Step(time.Duration(o.N) * time.Millisecond)
+				nowT += o.N
+				rec.ev("adv", tv.M{"now": nowT})
+				// the step runs as an operation of its own: the fake clock's Step blocks (holding the clock's lock) if a timer
+				// it has to fire still has an unread value in its channel - which only a misbehaving limiter leaves there
+				step := time.Duration(o.N) * time.Millisecond
+				c.cur = ctl.Go(fmt.Sprintf("c%d:adv", ci), func() { clk.Step(step) })
+				clockSteps = append(clockSteps, c.cur)
 			case "cancel":
 				c.next++
 				canStop.Store(true)
@@ -482,8 +498,9 @@ func runSchedule(b, hb *tv.Batch, prog program, seed int64) result {
 	err = d.Run()
 	if err == nil {
 		// move the clock past every window, then drain: the slow consumer now reads freely; run until nothing moves
-		rec.ev("adv", tv.M{"now": nowMs() + prog.M + 100})
-		clk.Step(time.Duration(prog.M+100) * time.Millisecond)
+		nowT += prog.M + 100
+		rec.ev("adv", tv.M{"now": nowT})
+		clockSteps = append(clockSteps, ctl.Go("final:adv", func() { clk.Step(time.Duration(prog.M+100) * time.Millisecond) }))
 		d2 := &sched.Driver{C: ctl, Rng: rng, MaxSteps: 3000, AtQuiescence: d.AtQuiescence, Extra: d.Extra}
 		if prog.NoDrain {
 			d2.Weight = func(c sched.Choice) int {
@@ -514,13 +531,18 @@ func runSchedule(b, hb *tv.Batch, prog program, seed int64) result {
 				res.deadlock = "close-waits-nobody-left-after-rejected-run" // Close waits although no goroutine of the limiter is left
 			}
 		}
-		rec.ev("stuck", tv.M{"n": res.stuck, "run": res.runStuck})
+		for _, t := range clockSteps {
+			if !t.Done() {
+				res.clock = true
+			}
+		}
+		rec.ev("stuck", tv.M{"n": res.stuck, "run": res.runStuck, "clock": res.clock})
 	}
 	// tear down
 	rec.end()
 	ctl.Shutdown()
 	cancel()
-	if res.stuck == 0 && err == nil {
+	if res.stuck == 0 && !res.clock && err == nil {
 		for i := 0; i < 2000 && !runDone.Load(); i++ {
 			time.Sleep(100 * time.Microsecond)
 		}
@@ -563,7 +585,13 @@ func runVolley(b, hb *tv.Batch, prog program, seed int64) result {
 	}
 	rl, err := ratelimiting.NewCoalescing(opts)
 	if err != nil {
-		res.err = err
+		rec.ev("new_err", tv.M{"msg": err.Error()})
+		rec.end()
+		res.htrace = -1
+		res.cfgClass = "initial-less-than-max"
+		if prog.I == prog.M {
+			res.cfgClass = "initial-equals-max"
+		}
 		return res
 	}
 	rl.(ratelimiting.RateLimiterWithTicker).WithTicker(clk)
@@ -648,7 +676,7 @@ func runVolley(b, hb *tv.Batch, prog program, seed int64) result {
 		ok = quiesce()
 	}
 	if ok {
-		rec.ev("stuck", tv.M{"n": res.stuck, "run": false})
+		rec.ev("stuck", tv.M{"n": res.stuck, "run": false, "clock": false})
 	}
 	rec.end()
 	ctl.Shutdown()
@@ -818,6 +846,46 @@ func multiChain(i, m int, exts []int, consumer string, rng *rand.Rand) program {
 	return p
 }
 
+// capChain: sequential timeline around the pending-events cap: Add at idle (signalled), then further Adds at the same
+// instant until the cap is reached (the Add that reaches it is signalled at once and must NOT touch the window), then the
+// clock goes to just before the end of the window as extended by the Adds before the cap (nothing), to its end (nothing
+// pending: back to idle without a signal), then a fresh Add (idle: signalled at once), one more inside the new window
+// and that window's end.  Expected instants are the contract's; Go tracks the window only to choose the steps.
+func capChain(i, m, cap int, consumer string) program {
+	p := program{I: i, M: m, Cap: cap, Consumer: consumer, Prefix: []string{}, Seq: true, NoGates: true}
+	ops := []opSpec{{Op: "add", N: 1, Idle: true}}
+	w := i
+	for k := 1; k <= cap; k++ { // Adds 2..cap+1: the first cap-1 extend the window, the last reaches the cap
+		ops = append(ops, opSpec{Op: "add", N: 1, Idle: true})
+		if k < cap && w < m {
+			w *= 2
+			if w > m {
+				w = m
+			}
+		}
+	}
+	if w > 1 {
+		ops = append(ops, opSpec{Op: "adv", N: w - 1, Idle: true})
+	}
+	ops = append(ops, opSpec{Op: "adv", N: 1, Idle: true}, opSpec{Op: "add", N: 1, Idle: true})
+	if cap > 1 { // with cap 1 every Add is signalled at once and no window is ever extended
+		ops = append(ops, opSpec{Op: "add", N: 1, Idle: true})
+	}
+	w2 := i
+	if cap > 1 && w2 < m {
+		w2 *= 2
+		if w2 > m {
+			w2 = m
+		}
+	}
+	if w2 > 1 {
+		ops = append(ops, opSpec{Op: "adv", N: w2 - 1, Idle: true})
+	}
+	ops = append(ops, opSpec{Op: "adv", N: 1, Idle: true}, opSpec{Op: "add", N: 1, Idle: true})
+	p.Clients = [][]opSpec{ops}
+	return p
+}
+
 // longBurst: one uninterrupted chain of n Adds (InitialDelay i ms, MaxDelay m ms, no cap): every Add is issued and fully
 // handled before the next, and the clock moves by less than the current window between two Adds, so the window never
 // expires while it doubles from i up to m and then stays at m.  Then the window is left to expire: nothing just before
@@ -860,6 +928,12 @@ func longBurst(i, m, n int, consumer string, rng *rand.Rand) program {
 }
 
 func keyOf(why string, r result) string {
+	if strings.HasPrefix(why, "config:") {
+		return "config:legal-configuration-refused:" + r.cfgClass
+	}
+	if strings.HasPrefix(why, "deadlock: the injected clock") {
+		return "deadlock:clock-step-blocked-on-the-limiters-timer"
+	}
 	if strings.HasPrefix(why, "deadlock:") {
 		d := r.deadlock
 		if strings.HasPrefix(d, "close-vs-run-lock") {
@@ -941,9 +1015,13 @@ func TestCheck(t *testing.T) {
 		// an Add racing the timer expiry and the reset to idle
 		{I: 1, M: 2, Consumer: "prompt", Clients: [][]opSpec{{A(1), idle(A(1)), idle(ADV(2))}, {after(A(1), 2)}, {after(ADV(1), 2)}}},
 		{I: 2, M: 2, Consumer: "prompt", Clients: [][]opSpec{{A(1), idle(ADV(2)), A(1)}, {after(A(1), 1)}, {after(ADV(2), 1)}}},
+		// ... and what the limiter does afterwards: a token and the expiry ready together, then Adds at once and a little later
+		// (the window either restarted from the token or a fresh one was opened after the expiry: no immediate signal either way)
+		{I: 2, M: 8, Consumer: "prompt", Reps: 4, Clients: [][]opSpec{{A(1), idle(A(1))}, {after(A(1), 2), idle(A(1)), idle(ADV(1)), idle(A(1)), idle(ADV(8))}, {after(ADV(4), 3)}}},
+		{I: 1, M: 4, Consumer: "slow", Reps: 4, Clients: [][]opSpec{{A(1), idle(A(1))}, {after(A(1), 2), idle(A(1)), idle(A(1)), idle(ADV(4))}, {after(ADV(2), 3)}, {after(A(1), 3)}}},
 	}
-	nStaged := ev.Pick(5, 50)
-	nRandProg := ev.Pick(60, 800)
+	nStaged := ev.Pick(4, 50)
+	nRandProg := ev.Pick(50, 800)
 	nSchedPer := ev.Pick(3, 5)
 	nSeq := ev.Pick(35, 500)
 	inconcl, nSeqRun := 0, 0
@@ -965,7 +1043,11 @@ func TestCheck(t *testing.T) {
 		}
 	}
 	for _, p := range staged {
-		for i := 0; i < nStaged; i++ {
+		reps := nStaged
+		if p.Reps > 1 {
+			reps *= p.Reps
+		}
+		for i := 0; i < reps; i++ {
 			run(p, rng.Int63())
 			if len(p.Prefix) > 0 && i >= 2 {
 				break // forced schedules are deterministic
@@ -988,8 +1070,20 @@ func TestCheck(t *testing.T) {
 			}
 		}
 	}
+	// timelines that go on after a cap fire: window end -> idle -> Add (signalled at once) -> extension timing
+	nCap := 0
+	capCfgs := [][2]int{{1, 8}, {2, 16}, {2, 2}, {3, 5}}
+	if ev.Thorough() {
+		capCfgs = append(capCfgs, [][2]int{{1, 1}, {1, 2}, {1, 100}, {1000, 5000}, {500, 500}, {2, 9}}...)
+	}
+	for k, im := range capCfgs {
+		for cp := 1; cp <= 4; cp++ {
+			run(capChain(im[0], im[1], cp, []string{"prompt", "slow"}[(k+cp)%2]), rng.Int63())
+			nCap++
+		}
+	}
 	nChains := 0
-	chainCfgs := [][2]int{{1, 8}, {2, 16}, {1, 100}}
+	chainCfgs := [][2]int{{1, 8}, {2, 16}, {1, 100}, {2, 2}}
 	if ev.Thorough() {
 		chainCfgs = append(chainCfgs, [][2]int{{3, 24}, {1, 9}, {2, 17}, {1000, 60000}, {1, 4}, {2, 9}, {500, 5000}}...)
 	}
@@ -1014,6 +1108,9 @@ func TestCheck(t *testing.T) {
 	for _, v := range volleys {
 		for rep := 0; rep < v[3]*ev.Pick(1, 8); rep++ {
 			p := program{I: 1000, M: 5000, Cap: v[2], Consumer: "prompt", Prefix: []string{}, Clients: [][]opSpec{}, VolleyG: v[0], VolleyK: v[1]}
+			if rep%5 == 4 {
+				p.M = p.I // the boundary configuration InitialDelay == MaxDelay
+			}
 			r := runVolley(b, nil, p, 0) // no hook-level trace: explaining 16 free-running Adds costs the binding millions of states
 			results = append(results, r)
 			progs = append(progs, p)
@@ -1057,6 +1154,7 @@ func TestCheck(t *testing.T) {
 	e.Set("traces_validated_against_impl", int64(jb.Len()))
 	e.Set("sequential_timelines", int64(nSeqRun))
 	e.Set("long_burst_timelines", int64(nLong))
+	e.Set("cap_chain_timelines", int64(nCap))
 	e.Set("parallel_volley_runs", int64(nVolley))
 	e.Set("multi_chain_timelines", int64(nChains))
 	e.Set("rule", "a case = (configuration InitialDelay 1-3 ms <= MaxDelay <= 15 ms, MaxPendingEvents unset/1-4, prompt or slow consumer; client program: 1-3 goroutines issuing Add bursts, clock advances inside / exactly at / beyond window ends, cancel, one or two Close, further Run calls) x (seeded schedule over the limiter's decision points coal.run.top/input/timer, coal.add.beforeSend, coal.fire.beforeSend, coal.close.beforeLock and the slow consumer); staged programs + sequential timelines (every op at a quiescent point: unique signal timeline, exact comparison) + long-burst timelines (one chain of 40/70/130 Adds inside a never-expiring window, InitialDelay 1 ms-2 s, MaxDelay up to 1 h, then expiry) + multi-chain timelines (2-3 chains with 1-4 extensions each, separated by expiry to idle, MaxDelay >= 8x InitialDelay, timed exactly) + programs whose slow consumer never reads again (Close / cancel with undelivered signals from the input, cap and timer paths) + free-running volleys (G goroutines x K simultaneous Adds at a frozen clock against cap = G*K and caps 1-4; contract only) + random programs; non-trivial = schedule longer than 6 choices; distinct by (program, schedule)")
@@ -1155,6 +1253,7 @@ func modelCheck(e *ev.Evidence) {
 		{name: "MC_defect_inputctx.cfg", want: "NoWedge", workers: 2, to: 3 * time.Minute},
 		{name: "MC_defect_bfkept.cfg", want: "MonitorOK", workers: 2, to: 3 * time.Minute},
 		{name: "MC_defect_wgleak.cfg", want: "NoWedge", workers: 2, to: 3 * time.Minute},
+		{name: "MC_defect_capnoreturn.cfg", want: "MonitorOK", workers: 2, to: 3 * time.Minute},
 		{name: "MC_small_run2.cfg", workers: 4, to: 6 * time.Minute},
 	}
 	if ev.Thorough() {
@@ -1251,7 +1350,7 @@ func selfTest(e *ev.Evidence) {
 		b.Ev("close_call", nil)
 		b.Ev("run_ret", nil)
 		b.Ev("close_ret", tv.M{"helpers": helpers})
-		b.Ev("stuck", tv.M{"n": 0, "run": false})
+		b.Ev("stuck", tv.M{"n": 0, "run": false, "clock": false})
 	}
 	mk(2, true, false, 0)  // 0 fine
 	mk(1, true, false, 0)  // 1 the window-end signal one ms early
@@ -1261,7 +1360,7 @@ func selfTest(e *ev.Evidence) {
 	// 5: deadlock
 	b.Start(tv.M{"i": 1, "m": 4, "cap": 0})
 	b.Ev("close_call", nil)
-	b.Ev("stuck", tv.M{"n": 1, "run": true})
+	b.Ev("stuck", tv.M{"n": 1, "run": true, "clock": false})
 	// 6: a slow consumer; the second signal never arrives although the consumer finally drains
 	b.Start(tv.M{"i": 1, "m": 2, "cap": 0})
 	b.Ev("add_call", tv.M{"n": 1})
@@ -1301,13 +1400,21 @@ func selfTest(e *ev.Evidence) {
 	b.Ev("signal", nil)
 	b.Ev("signal", nil)
 	b.Ev("quiescent", tv.M{"recv": true})
+	// 9: the constructor refused the configuration; 10: a clock step never returned
+	b.Start(tv.M{"i": 2, "m": 2, "cap": 0})
+	b.Ev("new_err", tv.M{"msg": "max delay must be >= base delay"})
+	b.Start(tv.M{"i": 1, "m": 2, "cap": 0})
+	b.Ev("add_call", tv.M{"n": 1})
+	b.Ev("add_ret", tv.M{"n": 1})
+	b.Ev("adv", tv.M{"now": 1})
+	b.Ev("stuck", tv.M{"n": 0, "run": false, "clock": true})
 	rej, res := tv.Validate(tlc.Opts{Dir: "Coalescing", Module: "TraceCoal", Config: "TraceCoal.cfg", Workers: 2, Timeout: 2 * time.Minute}, b)
 	got := map[int]string{}
 	for _, r := range rej {
 		got[r.Trace] = r.Why
 	}
 	has := func(i int, pfx string) bool { return strings.HasPrefix(got[i], pfx) }
-	ok := res.OK && got[0] == "" && has(1, "early") && has(2, "lost") && has(3, "excess") && has(4, "helpers") && has(5, "deadlock") && has(6, "lost") && got[7] == "" && has(8, "duplicate")
+	ok := res.OK && got[0] == "" && has(1, "early") && has(2, "lost") && has(3, "excess") && has(4, "helpers") && has(5, "deadlock") && has(6, "lost") && got[7] == "" && has(8, "duplicate") && has(9, "config") && has(10, "deadlock: the injected clock")
 	e.Set("binding_selftest", tv.M{"valid_accepted_early_lost_excess_duplicate_helpers_deadlock_rejected": ok})
 	if !ok {
 		e.Inconclusive(fmt.Sprintf("binding self-test failed: %v %s %s", got, res.What, res.Tail(600)))
